@@ -1,30 +1,46 @@
 """C16 Render-argument sets obey their precedence, compatibility and immutability laws.
 
 Engine: programs x histories (DESIGN 3/C16).
-  programs  = every rooted tree of render classes with <= 4 nodes below ``Renderable`` (up to tree
+  programs  = every rooted tree of render classes with 1..4 nodes below ``Renderable`` (up to tree
               isomorphism) x every subset of classes owning an ArgsNamespace (field ``a`` over
-              {default, 1, 2}; variants: one owner with a second field ``b``; one owner with a
-              field-inheriting namespace subclass) x seeding mode (eager: every class's shared default
-              set is created right after the class, before its subclasses exist; lazy: no set exists,
-              defaults are interned by the explored operations themselves), all classes built
-              dynamically with the real metaclasses, namespace classes associated before the render
-              class is subclassed or used.
-  histories = explicit-state breadth-first search over pools of real objects: an operation takes its
-              operands from the pool and its result joins the pool.  A state is canonicalised by the
-              VALUE of its objects (class, per-class field values, "is the interned default" bit) plus
-              the set of classes whose default is interned; that is the whole hidden state of the
-              implementation (``RenderArgs._interned`` is the only mutable global, objects are immutable
-              - which is itself checked on every transition).  Identical calls (same real operand
-              objects, same interned map) are executed once.  Every violation found in the merged
-              search is re-executed as a linear history on freshly created classes before it is
-              reported; the thorough tier also enumerates all short histories without merging.
-Oracle: ``c16_model.Model`` (dict-based reference written from the docstrings) for value / accepted /
-        rejected-with-the-documented-error; equality and hash laws against every object with the same
-        model value ever produced in the program; snapshots of every pre-existing object, of the
-        interned defaults and of every class's ``_ALL_DEFAULT_ARGS`` before/after every operation.
-Part S (structure): full product args-owner subsets x data-owner subsets: ``_ALL_DEFAULT_ARGS`` /
-        ``RenderData`` contents, and a menu of malformed namespace class definitions, each of which
-        must be rejected with the documented error and leave the render classes untouched.
+              {default, 1, 2}; variants: one owner with a second field ``b``; one owner whose namespace
+              class has a field-inheriting subclass) x seeding mode (eager: the shared default set of
+              every class is created right after the class and its namespaces, i.e. before any subclass
+              exists; lazy: no set exists at the start, defaults are interned by the explored operations
+              themselves).  Classes are built dynamically with the real metaclasses, namespace classes are
+              associated before the render class is subclassed or used.  In these programs the classes
+              that do not own arguments own a DataNamespace.
+  histories = explicit-state breadth-first search over pools of real objects.  Alphabet: ``RenderArgs(cls,
+              init?, *ns)`` for every class x init in {absent, None, every set in the pool} x every
+              sequence of <= 2 pool namespaces; ``args.update(ns[, ns])``; ``args.update(cls, **fields)``
+              for every class and field set (including none / unknown); malformed ``update`` forms;
+              ``args.convert(cls)``; ``ns | ns``, ``ns | args``, ``args | ns``, ``ns.__ror__(ns)``; ``+ns``;
+              ``ns.to_render_args([cls])``; ``ns.update(**fields)``; ``Args(*values, **fields)``.
+              The result of an operation joins the pool.  A state is canonicalised by the VALUE of its
+              objects (class, per-class field values, namespace-subclass bit, "is the interned default"
+              bit) plus the set of classes whose default is interned: that is all the state the
+              implementation has (``RenderArgs._interned`` is its only mutable global and objects are
+              immutable - which is itself checked on every transition).  Branches share the real objects
+              and the search rewinds ``_interned`` to the map of the state it executes in; identical calls
+              (same real operand objects, same interned map) are executed once.
+              Safeguards for the merging: every violation found is re-executed as a linear history on
+              freshly created classes (no rewinding) before it is reported - a failure to reproduce is a
+              harness error; both tiers also enumerate all short histories without any merging, each on
+              fresh classes, and require the same reachable states and the same transition observations.
+Oracle: ``c16_model.Model`` (dict-based reference written from the docstrings, DESIGN B.2) decides value /
+        accepted / rejected-with-the-documented-error for every operation; every new object is read back
+        through ``[]``, iteration, ``in``, ``==``, ``hash`` and compared with the model (equal <=> same
+        class and values, equal => equal hash) against every object of the pool; after every operation
+        every pre-existing object of the pool, every constituent namespace, every interned default and
+        every class's ``Args`` / ``_ALL_DEFAULT_ARGS`` / ``_RENDER_DATA_MRO`` must be unchanged, an interned
+        default must never be replaced and must hold the default values; a result may be an existing
+        object only if that object has the expected value.
+Part S (structure): full product args-owner subsets x data-owner subsets of every tree: class tables,
+        ``RenderData`` contents and namespaces, and a menu of namespace class definitions (field without
+        default, second association, re-association of a subclass, two bases, fields without association,
+        association without fields, inherit + define fields, required constructor parameter, non-class
+        ``render_cls``, unknown fields; well-formed ones) - malformed ones must be rejected with the
+        documented error and leave every render class untouched.
 """
 from __future__ import annotations
 
@@ -93,6 +109,8 @@ class Engine:
         self.saved_interned = dict(self.interned)
         self.interned.clear()
         self.interned[L.renderable.Renderable] = T.BASE_RENDER_ARGS
+        k0 = L.renderable.Renderable
+        self.base_tables = {n: getattr(k0, n) for n in ("Args", "_Data_", "_ALL_DEFAULT_ARGS", "_RENDER_DATA_MRO")}
         self.P = Prog(L, spec, early_intern=(spec.seed == "eager"), tag=tag)
         self.M = Model(spec)
         self.EXC = dict(
@@ -128,6 +146,11 @@ class Engine:
     def close(self):
         self.interned.clear()
         self.interned.update(self.saved_interned)
+        # Renderable is shared by every program: undo anything a (reported) misbehaviour did to it
+        k = self.P.cls[0]
+        for name, v in self.base_tables.items():
+            if getattr(k, name) is not v:
+                setattr(k, name, v)
         self.by_value.clear()
         self.memo.clear()
         self.state0 = None
@@ -528,7 +551,8 @@ class Engine:
                 if (p.o in o) != (comps.get(p.d[1]) == p.d[2]):
                     self.report(S, op, "contains", f"({p.d} in {d}) is {p.o in o}")
         # ... and against the first object ever produced with the same value in this program
-        rep = self.by_value.setdefault(val, ob)
+        # (linear executions only: there every earlier object belongs to the same history, so the case replays)
+        rep = ob if self.rewind else self.by_value.setdefault(val, ob)
         if rep is not ob:
             if ob.h != rep.h:
                 self.report(S, op, "hash", f"equal objects {d} and {rep.d} (earlier) hash differently")
@@ -775,8 +799,6 @@ def structure_case(col, case):
                 xi = P.idx.get(x, -1)
                 if xi in M.default and (type(ns) is not P.args_cls[xi] or tuple(ns.as_dict().values()) != M.default[xi]):
                     bad("default-args-table", f"class {c}: default namespace of {xi} is {ns!r}")
-                if xi in M.default and ns is not x._ALL_DEFAULT_ARGS[x]:
-                    bad("default-args-shared", f"class {c} holds its own copy of the default namespace of {xi}")
             if (k.Args is not P.args_cls[c]) or (c and k._Data_ is not P.data_cls[c]):
                 bad("association", f"class {c}: Args={k.Args!r} _Data_={k._Data_!r}")
             got = sorted(P.idx.get(x, -1) for x in k._RENDER_DATA_MRO)
@@ -991,7 +1013,7 @@ def depth_for(spec, tier, opts):
     extra = sum(1 for x in spec.nf if x == 2) + sum(spec.sub)
     if tier == "quick":
         return 2 if (n == 4 and owners >= 3) else 3
-    return 4 if (n <= 3 or owners + extra <= 2) else 3
+    return 4 if ((n <= 3 and owners + extra <= 3) or owners + extra <= 2) else 3
 
 
 def cost_estimate(spec, depth):
@@ -1063,7 +1085,14 @@ def _structure_shard(cases):
 def _unmerged_shard(items):
     col = _CTX.new_collector()
     for spec, depth in items:
+        nv = sum(v[0] for v in col.violations.values())
         st_u, obs_u, n = unmerged(col, spec, depth, full=True)
+        col.inc("unmerged_operations", n)
+        col.inc("unmerged_programs")
+        if sum(v[0] for v in col.violations.values()) != nv:
+            # the property is violated in this program (reported): nothing to compare
+            col.inc("unmerged_comparisons_skipped")
+            continue
         scratch = _CTX.new_collector()
         eng = Engine(scratch, spec, rewind=True, confirm=False, full=True)
         try:
@@ -1071,9 +1100,6 @@ def _unmerged_shard(items):
             st_m = set(eng.search(depth, incremental=True, record=rec))
         finally:
             eng.close()
-        col.inc("unmerged_operations", n)
-        col.inc("unmerged_programs")
-        col.count(n)
         if st_u != st_m:
             raise world.HarnessError(
                 f"C16: merged and unmerged searches reach different states for {spec}: "
@@ -1135,7 +1161,7 @@ def run(ctx):
                     seeding=["eager", "lazy"], values="a in {default,1,2}, b in {default,1}",
                     constructor="every class x init in {absent, None, every set in the pool} x <=2 namespaces",
                     depth={"quick": "3 (2 for 4-class programs with >= 3 owners; no variants for 4-class programs)",
-                           "thorough": "4 (3 for 4-class programs with more than 2 owners/variants)"}[tier],
+                           "thorough": "4 (3 when owners + variant extras exceed 3, or exceed 2 in 4-class programs)"}[tier],
                     unmerged={"quick": "depth 2, programs with 1 class or 2 classes and <= 1 owner",
                               "thorough": "depth 3 for 1-class programs, depth 2 for <= 3 classes"}[tier]))
     ctx.rule = ("evaluations = operations executed on the real objects (identical calls - same operand objects, "
